@@ -168,7 +168,7 @@ Open Scope Z_scope.
     },
     "C18": {
         "title": "No axis is privileged: the local operators and the interpolators are symmetric under relabelling axes (exact arithmetic)",
-        "header": HDR_R.format(imports="From FT.proofs Require Import SSR InterpR Interp3R Sweep2dProofs OperatorsR.\nFrom FT.proofs Require Operators3R."),
+        "header": HDR_R.format(imports="From FT.proofs Require Import SSR InterpR Interp3R Sweep2dProofs OperatorsR.\nFrom FT.proofs Require Operators3R InitSym."),
         "theorems": [
             ("t_ana_swap", "OperatorsR.t_ana_swap", "analytic seed: exchanging the roles of Z and X"),
             ("delta_swap", "OperatorsR.delta_swap", "local quadratic solver"),
@@ -182,6 +182,12 @@ Open Scope Z_scope.
             ("interp2d_axis_swap", "InterpR.interp2d_axis_swap", "bilinear interpolation is equivariant under relabelling"),
             ("interp3d_axis_swap_xy", "Interp3R.interp3d_axis_swap", "trilinear: first two axes"),
             ("interp3d_axis_swap_yz", "Interp3R.interp3d_axis_swap_yz", "trilinear: last two axes"),
+            ("init_is_four_copies", "InitSym.fteik2d_p2_decompose", "tie: the generated source initialisation IS (by conversion) corners, then the east, west, down and up phases below - each loop body two instances of one block, every numeric instance"),
+            ("init_west_is_mirror_of_east", "InitSym.west_is_mirror_of_east_explicit", "the west loop on the x-mirrored problem gives the x-mirror of the east loop (times; sign component 1 negated), heterogeneous media, every shape, untouched cells included"),
+            ("init_down_is_transpose_of_east", "InitSym.down_is_transpose_of_east_explicit", "the down loop on the transposed problem (dz and dx exchanged) gives the transpose of the east loop"),
+            ("init_up_is_transpose_of_west", "InitSym.up_is_transpose_of_west_explicit", "up / west"),
+            ("init_up_is_mirror_of_down", "InitSym.up_is_mirror_of_down_explicit", "up / down under the z-mirror"),
+            ("init_mirrored_offsets", "InitSym.mirrored_dxw_is_dxe", "the sub-cell offsets the code computes on the mirrored problem are the exchanged ones when the source lies in its cell"),
         ],
         "examples": [],
     },
@@ -225,11 +231,15 @@ Open Scope Z_scope.
     },
     "C02": {
         "title": "Heterogeneous media: the grid-line bound in layered media and the registration of cells to nodes (exact arithmetic over the generated sweep). First-order accuracy and refinement are examined by the oracle against exact solutions.",
-        "header": HDR_R.format(imports="From FT.proofs Require Import Sweep2dProofs LayeredR."),
+        "header": HDR_R.format(imports="From FT.proofs Require Import Sweep2dProofs LayeredR.\nFrom FT.proofs Require InitSym."),
         "theorems": [
             ("column_upper_bound_down", "LayeredR.column_upper_bound_down", "converged solution: going down a column from any row, the time grows by at most dz * (smallest slowness of the cells adjoining each edge crossed)"),
             ("column_upper_bound_up", "LayeredR.column_upper_bound_up", "and going up"),
             ("layered_grid_line_upper", "LayeredR.layered_grid_line_upper", "layered model, node source: the time n rows below the source is at most the cumulative sum of slowness x spacing over the cell rows between them - cell row c lies between node rows c and c+1"),
+            ("init_is_four_copies", "InitSym.fteik2d_p2_decompose", "off-node sources: the generated source-line initialisation is (by conversion) corners + east, west, down, up phases; the east phase accumulates slow[zsi, j-1] for the edge between nodes j-1 and j"),
+            ("init_west_reads_the_mirror_cells", "InitSym.west_is_mirror_of_east_explicit", "the west phase reads exactly the mirror-image cells of the east phase (so the cell between nodes j and j+1 is cell j there as well), heterogeneous media"),
+            ("init_down_reads_the_transposed_cells", "InitSym.down_is_transpose_of_east_explicit", "and the down phase the transposed ones, with dz for dx"),
+            ("init_up_reads_the_mirror_cells", "InitSym.up_is_mirror_of_down_explicit", "up / down"),
         ],
         "examples": [],
     },
